@@ -17,6 +17,10 @@ package scheduler
 //   create budget is not exhausted (the new worker is booting); a booting
 //   worker may finish booting between any two pool calls; a quota error may
 //   arrive asynchronously after the k-th Create.
+// A waiting Locked container may have been locked only just now: the real
+// lockContainer() of an earlier pass is still inside its (slow) Lock API call,
+// i.e. the queue already shows Locked and the per-container operation is
+// still in progress during the judged pass.
 // The oracle only reads the snapshot and the call log.
 
 import (
@@ -44,6 +48,11 @@ type c16Ctr struct {
 	Priority int64  `json:"priority"`
 	State    string `json:"state"`   // Queued | Locked | Running
 	Running  bool   `json:"running"` // a crunch-run process is already on a worker
+	// State carried over from an earlier pass: the lockContainer call that
+	// turned this container Locked has applied the state change (the queue
+	// shows Locked) but the Lock API call has not returned yet, so the
+	// scheduler's per-container operation is still in progress.
+	LockInFlight bool `json:"lock_call_in_flight,omitempty"`
 }
 
 type c16BootEv struct {
@@ -250,6 +259,11 @@ type c16Queue struct {
 	unlockErr int
 	locks     []string
 	pool      *c16Pool
+	// Lock calls for these containers apply the state change and then do not
+	// return before release is closed (a slow API response)
+	slow    map[string]bool
+	applied chan string
+	release chan struct{}
 }
 
 func (q *c16Queue) Unlock(uuid string) error {
@@ -272,7 +286,12 @@ func (q *c16Queue) Lock(uuid string) error {
 	err := q.Queue.Lock(uuid)
 	q.mtx.Lock()
 	q.locks = append(q.locks, uuid)
+	slow := q.slow[uuid]
 	q.mtx.Unlock()
+	if slow {
+		q.applied <- uuid
+		<-q.release
+	}
 	return err
 }
 
@@ -334,6 +353,15 @@ func c16GenSnap(rng *verifkit.Rand) *c16Snap {
 		s.Boot = append(s.Boot, c16BootEv{BeforeCall: rng.Range(0, 3*n), Type: rng.Range(1, s.NTypes)})
 	}
 	s.Order = rng.Perm(n)
+	// operations still in flight from the previous pass
+	if r3 := rng.Fork(); r3.Chance(1, 3) {
+		p := r3.PickInt(1, 2, 4)
+		for i := range s.Ctrs {
+			if c := &s.Ctrs[i]; c.State == "Locked" && !c.Running && r3.Chance(1, p) {
+				c.LockInFlight = true
+			}
+		}
+	}
 	if os.Getenv("VERIF_C16_EXT") != "" {
 		r2 := rng.Fork()
 		if r2.Bool() {
@@ -362,6 +390,8 @@ type c16Outcome struct {
 	bootsFired                                                               int
 	latchLive                                                                bool
 	creates, createsOK, startsOK, startsFail, shutdowns, nunlock, nlockAsync int
+	inFlight                                                                 int    // lock calls that were in flight during the pass
+	stuck                                                                    string // watchdog: the pass could not be set up / torn down
 }
 
 func c16RunPass(s *c16Snap) *c16Outcome {
@@ -387,9 +417,15 @@ func c16RunPass(s *c16Snap) *c16Outcome {
 			return types[ctr.RuntimeConstraints.VCPUs], nil
 		},
 	}
+	slow := map[string]bool{}
 	for _, oi := range s.Order {
 		c := s.Ctrs[oi]
 		st := arvados.ContainerState(c.State)
+		if c.LockInFlight {
+			// becomes Locked through the real lockContainer() below
+			st = arvados.ContainerStateQueued
+			slow[c16UUID(c.ID)] = true
+		}
 		tq.Containers = append(tq.Containers, arvados.Container{
 			UUID:     c16UUID(c.ID),
 			State:    st,
@@ -404,14 +440,54 @@ func c16RunPass(s *c16Snap) *c16Outcome {
 		}
 	}
 	tq.Update()
-	q := &c16Queue{Queue: tq, pool: pool}
+	q := &c16Queue{Queue: tq, pool: pool, slow: slow, applied: make(chan string, len(slow)+1), release: make(chan struct{})}
 	ctx := ctxlog.Context(context.Background(), c16Discard)
 	sch := New(ctx, q, pool, nil, time.Hour, time.Hour)
 	sch.wakeup.Stop()
+	o := &c16Outcome{createFailed: map[int]bool{}, startedOK: map[string]bool{}, startTried: map[string]bool{}, unlocked: map[string]bool{}}
+
+	// the tail of the previous pass: lock calls whose state change has been
+	// applied and whose response is still on its way
+	var inflight sync.WaitGroup
+	for uuid := range slow {
+		uuid := uuid
+		inflight.Add(1)
+		go func() {
+			defer inflight.Done()
+			sch.lockContainer(sch.logger, uuid)
+		}()
+	}
+	watchdog := time.After(2 * time.Minute)
+	for o.inFlight < len(slow) && o.stuck == "" {
+		select {
+		case <-q.applied:
+			o.inFlight++
+		case <-watchdog:
+			o.stuck = "a lock call of the previous pass never reached the queue"
+		}
+	}
+	if o.stuck == "" {
+		for uuid := range slow {
+			if c, ok := tq.Get(uuid); !ok || c.State != arvados.ContainerStateLocked {
+				o.stuck = "in-flight lock call did not leave the container Locked in the queue"
+			}
+		}
+	}
+	if o.stuck != "" {
+		close(q.release)
+		return o
+	}
 
 	sch.runQueue()
 
-	o := &c16Outcome{createFailed: map[int]bool{}, startedOK: map[string]bool{}, startTried: map[string]bool{}, unlocked: map[string]bool{}}
+	close(q.release)
+	done := make(chan struct{})
+	go func() { inflight.Wait(); close(done) }()
+	select {
+	case <-done:
+	case <-time.After(2 * time.Minute):
+		o.stuck = "in-flight lock calls did not return after release"
+	}
 	pool.mtx.Lock()
 	o.log = append([]c16Call(nil), pool.log...)
 	o.bootsFired = pool.bootsFired
@@ -534,6 +610,11 @@ func c16JudgePass(run *verifkit.Run, s *c16Snap, o *c16Outcome) (pairs1, pairs2,
 				if o.startedOK[c16UUID(y.ID)] {
 					fate = "lower-started"
 				}
+				if y.LockInFlight {
+					// the spared one is the container whose Lock call
+					// had not returned yet
+					fate += ":lower-lock-call-in-flight"
+				}
 				run.Violation("C16:b:quota-unlock-spares-lower-priority:"+rel+":"+fate,
 					detail(fmt.Sprintf("at quota, waiting Locked container %d (priority %d) was unlocked while waiting Locked container %d (priority %d) kept its lock", x.ID, x.Priority, y.ID, y.Priority)), s)
 			}
@@ -568,7 +649,21 @@ func TestVerifC16(t *testing.T) {
 		s := c16GenSnap(rng)
 		run.Input(s, false)
 		o := c16RunPass(s)
+		if o.stuck != "" {
+			run.Inconclusive("C16(b): " + o.stuck)
+			return
+		}
 		p1, p2, l1, l2 := c16JudgePass(run, s, o)
+		run.Count("b_lock_calls_in_flight_during_pass", o.inFlight)
+		if o.inFlight > 0 && o.sawQuota {
+			run.Count("b_passes_at_quota_with_lock_call_in_flight", 1)
+			for _, c := range s.Ctrs {
+				if c.LockInFlight && o.unlocked[c16UUID(c.ID)] {
+					seen["unlocked_while_lock_call_in_flight"]++
+					run.Count("b_unlocked_while_lock_call_in_flight", 1)
+				}
+			}
+		}
 		run.Eval(1) // one pass judged
 		run.Count("b_passes", 1)
 		run.Count("b_pairs_same_type_ordered", p1)
@@ -616,15 +711,15 @@ func TestVerifC16(t *testing.T) {
 		if p1 == 0 && p2 == 0 {
 			run.Trivial()
 		} else {
-			run.Feature(fmt.Sprintf("ty%d|w%d|ties=%v|quota=%v|ok%s|fail%s|cr%s|unl%s|boot%s",
-				s.NTypes, nw, ties, o.sawQuota, c16Bucket(o.startsOK), c16Bucket(o.startsFail), c16Bucket(o.creates), c16Bucket(o.nunlock), c16Bucket(o.bootsFired)))
+			run.Feature(fmt.Sprintf("ty%d|w%d|ties=%v|quota=%v|ok%s|fail%s|cr%s|unl%s|boot%s|inflight%s",
+				s.NTypes, nw, ties, o.sawQuota, c16Bucket(o.startsOK), c16Bucket(o.startsFail), c16Bucket(o.creates), c16Bucket(o.nunlock), c16Bucket(o.bootsFired), c16Bucket(o.inFlight)))
 		}
 		if i < 4 {
 			run.Sample(map[string]interface{}{"snapshot": s, "calls": o.log})
 		}
 	})
 	if !run.Replaying() {
-		for _, must := range []string{"starts_ok", "starts_failed", "lower_started_pairs", "quota_unlock_pairs", "creates", "idle_after_failed_start"} {
+		for _, must := range []string{"starts_ok", "starts_failed", "lower_started_pairs", "quota_unlock_pairs", "creates", "idle_after_failed_start", "unlocked_while_lock_call_in_flight"} {
 			if seen[must] == 0 {
 				run.Inconclusive("C16(b): never observed in this batch: " + must)
 			}
